@@ -427,6 +427,56 @@ func C13(e *Env) {
 			}
 		}
 	}
+	// cold-start fault runs: the fault hits a freshly started server, so it is the *first* time the
+	// faulted operation runs (anything the server remembers from a failed first attempt - keys,
+	// sizes, layouts - shows up in the healthy replay that follows on the same process)
+	coldRuns := 0
+	for _, sc := range scen {
+		if sc.Write || !(strings.HasPrefix(sc.Name, "encrypted") || strings.HasPrefix(sc.Name, "3k3y") || strings.HasPrefix(sc.Name, "ps3") || strings.HasPrefix(sc.Name, "generated") || sc.Name == "mixed-handles") {
+			continue
+		}
+		reqs := append(append([]wire.Req{}, sc.Reqs...), wire.P(wire.OpStat, "/"))
+		scc := sc
+		scc.Reqs = reqs
+		tro.p.Do(worker.Cmd{Cmd: "plan", KeepLog: true})
+		ref := RunLockstepOpt(tro.p.HostPort(), tro.w, reqs, e.Watchdog, LockOpt{KeepResp: true, NoFence: true})
+		if ref.Fail != nil {
+			continue
+		}
+		rep, _, err := tro.quiesce()
+		if err != nil {
+			continue
+		}
+		K := rep.Ops
+		step := 1
+		if !e.Thorough && K > 30 {
+			step = 2
+		}
+		for i := 1; i <= K; i += step {
+			cw := &c13Target{root: root}
+			cw.p = e.Worker(worker.Config{Root: root, BufSize: 65536, Faults: []spyfs.Fault{{Index: i, Kind: spyfs.FEIO}}}, "c13-cold", false, 0)
+			addr := cw.p.HostPort()
+			cw.w = &model.World{Root: root, Views: FullViews, Probe: func() error { return host.Probe(addr) }}
+			desc := fmt.Sprintf("cold start, EIO at op #%d", i)
+			c13RunFaulted(e, cw, scc, ref.Resp, desc)
+			cw.quiesce()
+			cw.p.Do(worker.Cmd{Cmd: "plan"})
+			if out := c13RunFaulted(e, cw, scc, ref.Resp, "healthy replay after: "+desc); out != "same" && out != "violation" && out != "hang" {
+				run.Violate("fault-remembered", sc.Name, fmt.Sprintf("[%s] after the fault (%s) was gone, a fresh connection replaying the scenario did not get the fault-free answers (first deviation: %s)", sc.Name, desc, out), map[string]any{"scenario": sc.Name, "fault": desc})
+			}
+			if rep2, sconn2, err := cw.quiesce(); err == nil && (len(rep2.Open) > 0 || sconn2 != 0) {
+				run.Violate("leak", sc.Name+": cold start", fmt.Sprintf("[%s, %s] %d handles still open (%v)", sc.Name, desc, len(rep2.Open), trimPaths(rep2.Open, root)), map[string]any{"scenario": sc.Name, "fault": desc})
+			}
+			if !cw.p.Alive() {
+				run.Violate("process-died", sc.Name+": "+crashClass(cw.p.CrashTrace()), fmt.Sprintf("[%s, %s] server died: %s", sc.Name, desc, firstLines(cw.p.CrashTrace(), 8)), nil)
+			}
+			cw.p.Stop()
+			coldRuns++
+			run.Eval(1)
+			run.Sig("%s | cold-start eio", sc.Name)
+		}
+	}
+	run.Obs("cold_start_fault_runs", coldRuns)
 	run.Obs("fault_runs", totalFaultRuns)
 	run.Obs("fs_operations_in_recording_runs", totalOps)
 	run.Exhaustive = true
